@@ -113,6 +113,19 @@ def judge(Pr, Pe, rel, delta, unit, allp, from_ref, mode):
         k = int(np.argmax(np.abs(err - np.array(exp))))
         msgs.append("value %d (pair %s) = %.12g, definition gives %.12g" %
                     (k, pairs[k] if k < len(pairs) else "?", err[k], exp[k]))
+    # the same metric object used again (e.g. in a loop over estimates)
+    # must give the same answer: nothing may accumulate across calls
+    if not msgs and not allp and not from_ref:
+        with common.quiet():
+            m.process_data((ref, est))
+        again = np.array(m.error, dtype=float)
+        if again.shape != err.shape or (err.size and
+                                        np.abs(again - err).max() > tol) \
+                or [int(i) for i in m.delta_ids] != ids:
+            msgs.append("second process_data() on the same metric object "
+                        "gives %d values / ids %s, the first gave %d / %s" %
+                        (again.size, list(m.delta_ids)[:6], err.size,
+                         ids[:6]))
     return msgs, "pairs" if len(exp) == len(pairs) else "pairs-skipped-zero"
 
 
@@ -220,7 +233,7 @@ DIMS = [
     ("all_pairs", [False, True]),
     ("from_ref", [False, True]),
     ("align", ["none", "a", "s", "as", "origin", "s+origin"]),
-    ("n_to_align", [-1, 4]),
+    ("n_to_align", [-1, 4, 6]),
     ("downsample", [None, 5]),
     ("motion_filter", [None, (0.5, 30.0), (100.0, 40.0)]),
     ("t_max_diff", [0.01, 0.3]),
@@ -229,6 +242,7 @@ DIMS = [
     ("project", [None, "xy", "xz", "yz"]),
     ("unit", [None, "compatible", "incompatible"]),
     ("fmt", ["tum", "kitti", "euroc"]),
+    ("epoch", [0.0, 1.5e9]),
 ]
 
 
@@ -349,7 +363,7 @@ def lattice_points(ctx):
         # the processing dimensions with fixed RPE options
         a = [("relation", DIMS[0][1]), ("delta", DIMS[1][1]),
              ("all_pairs", [False, True]), ("from_ref", [False, True]),
-             ("align", DIMS[4][1]), ("n_to_align", [-1, 4]),
+             ("align", DIMS[4][1]), ("n_to_align", [-1, 4, 6]),
              ("project", [None, "xy", "xz", "yz"]),
              ("unit", [None, "compatible"]), ("fmt", DIMS[13][1])]
         base = {"downsample": None, "motion_filter": None, "t_max_diff": 0.01,
@@ -378,7 +392,7 @@ def lattice_points(ctx):
             pts.append(dict(base, **p))
         c = [("relation", DIMS[0][1]), ("delta", DIMS[1][1]),
              ("all_pairs", [False, True]), ("align", DIMS[4][1]),
-             ("n_to_align", [-1, 4]), ("fmt", ["tum", "kitti"])]
+             ("n_to_align", [-1, 4, 6]), ("fmt", ["tum", "kitti"])]
         base = {"from_ref": False, "downsample": None, "motion_filter": None,
                 "t_max_diff": 0.01, "t_offset": 0.0, "crop": None,
                 "project": None, "unit": None}
